@@ -727,9 +727,16 @@ package index
 //@   assert at before call index.writeHeader#0: @header-after-chunking gchunked && $a0 == headerPath && $a1.MaxFileSize == maxFileSize
 //@   assert at before call os.Remove#0: @old-file-removed-last gheader && $a0 == name
 
-//@ func readOldHeader(file *os.File) (version byte, bucketBits byte, headerSize types.Position, err error)
-//@   trusted reads the version-2 header (a header shorter than two bytes makes it panic: input validation of a legacy file, outside C10's well-formed legacy stores)
+// readOldHeader (C10) is verified against its body under one input invariant: the legacy header
+// is at least two bytes long (version and bucket bits) and shorter than 2^30. A shorter header makes the code panic;
+// that is validation of a corrupt legacy file, outside C10's well-formed legacy stores.
+//@ func readOldHeader(file *os.File) (version byte, bucketBits byte, hsize types.Position, err error)  property C10
 //@   pure
+//@   assume at after call io.ReadFull#0: @format-legacy-header-size le32(bytes(headerSizeBuffer), 0) >= 2 && le32(bytes(headerSizeBuffer), 0) < (1 << 30)
+//@   ghost var gsz int = 0
+//@   ghost at after call io.ReadFull#0: gsz = le32(bytes(headerSizeBuffer), 0)
+//@   internal ensures @header-size-includes-its-prefix err == nil ==> hsize == 4 + gsz
+//@   ensures @records-start-after-header err == nil ==> hsize >= 6 && hsize < (1 << 30) + 4
 
 // scanIndex: scanIndexFile for consecutive file numbers until one does not exist; an error of
 // any other kind aborts the open.
